@@ -154,3 +154,38 @@ package zapcore
 //@   flags nopanic
 //@   modifies comp(E:uint8), buffer.Buffer.bs
 //@   ensures elems_frame(type(uint8), zero(type([]uint8))) && type_frame(type(buffer.Buffer))
+
+// ---------------------------------------------------------------------------
+// tee.go (C10, C04): every branch of a tee is written / synced exactly once, in order, whatever the
+// earlier branches returned; the errors are combined.
+
+//@ func (zapcore.multiCore).Write
+//@   props C10 C04
+//@   refines zapcore.Core.Write
+//@   flags nopanic
+//@   track W = invoke zapcore.Core.Write
+//@   modifies $user
+//@   ensures #W == len(mc)
+//@   ensures forall k int :: 0 <= k && k < len(mc) ==> W.recv[k] == old(mc[k]) && W.arg0[k] == ent && W.arg1[k] == fields
+//@   ensures forall k int :: 0 < k && k < len(mc) ==> W.ts[k - 1] < W.ts[k]
+//@   ensures result == errFold(W.ret0, len(mc))
+//@   loop 1 invariant 0 <= $idx && $idx <= len(mc) && #W == $idx
+//@   loop 1 invariant forall k int :: 0 <= k && k < len(mc) ==> mc[k] == old(mc[k])
+//@   loop 1 invariant forall k int :: 0 <= k && k < $idx ==> W.recv[k] == old(mc[k]) && W.arg0[k] == ent && W.arg1[k] == fields
+//@   loop 1 invariant forall k int :: 0 < k && k < $idx ==> W.ts[k - 1] < W.ts[k]
+//@   loop 1 invariant forall k int :: 0 <= k && k < $idx ==> W.ts[k] < clk()
+//@   loop 1 invariant err == errFold(W.ret0, $idx)
+
+//@ func (zapcore.multiCore).Sync
+//@   props C10 C04
+//@   refines zapcore.Core.Sync
+//@   flags nopanic
+//@   track S = invoke zapcore.Core.Sync
+//@   modifies $user
+//@   ensures #S == len(mc)
+//@   ensures forall k int :: 0 <= k && k < len(mc) ==> S.recv[k] == old(mc[k])
+//@   ensures result == errFold(S.ret0, len(mc))
+//@   loop 1 invariant 0 <= $idx && $idx <= len(mc) && #S == $idx
+//@   loop 1 invariant forall k int :: 0 <= k && k < len(mc) ==> mc[k] == old(mc[k])
+//@   loop 1 invariant forall k int :: 0 <= k && k < $idx ==> S.recv[k] == old(mc[k])
+//@   loop 1 invariant err == errFold(S.ret0, $idx)
